@@ -102,6 +102,11 @@ func (P) Generate(g *core.Gen) {
 		s := r.Bytes(r.Intn(40))
 		emit(g, "prim:tok", len(s) > 0, "C06 tok "+hexTok(s))
 	}
+	for _, l := range []string{"4e00000000", "4e01000000aa", "4effffff7f", "4e00000080", "4effffffff", "4e000000ff00", "4dffff", "4d0100", "4cff",
+		"4e0000008000000000", "4effffffff" + "00000000", "4e02000000aa"} {
+		g.Case("prim:tok", true, "C06 tok "+l)
+		g.Case("prim:classify", true, "C06 classify "+l)
+	}
 	_ = hex.EncodeToString
 	// script classifiers
 	ckeys := makeKeys(r.Fork(), 3)
@@ -179,6 +184,7 @@ func (P) Generate(g *core.Gen) {
 	keys := makeKeys(r, 5)
 	cs = append(cs, genRegress()...)
 	cs = append(cs, genLimits(g, r, keys)...)
+	cs = append(cs, genTaprootCoverage(g, r.Fork(), keys, g.N(5, 1))...)
 	cs = append(cs, genSoup(g, r, keys, g.N(7000, 300000))...)
 	cs = append(cs, genSigs(g, r, keys, g.N(4000, 180000))...)
 	cs = append(cs, genWitnessMisc(g, r, keys, g.N(2000, 90000))...)
